@@ -240,8 +240,10 @@ def main(argv=None):
         with open(os.path.join(VERIF, "evidence", "%s.json" % pid), "w") as f:
             json.dump(ev, f, indent=1, default=str)
 
+    slow = sorted(((d.get("wall", 0), d.get("name")) for d in done), reverse=True)[:3]
     for l in lines:
         print(l)
+    print("slowest jobs: %s" % ", ".join("%s %.0fs" % (n, w) for w, n in slow))
     print("%s tier=%s jobs=%d paths=%s %s solver=%.1fs wall=%.1fs" % (pid, args.tier, len(done), agg["paths"], summary,
                                                                      agg["solver_time"], wall))
     if violated:
